@@ -1,5 +1,5 @@
 """user-function kernels (C08) and function rollback (C11)."""
-from vxlib import Inst, CORE_TUS, FMT_STUBS, CTX_STUBS, CONTAINER_STUBS
+from vxlib import Inst, CORE_TUS, FMT_STUBS, CTX_STUBS, CONTAINER_STUBS, EMPTY_DECL_UNWIND
 
 TUS = CORE_TUS + ["blocc/expression_variable.cpp"]
 
@@ -14,4 +14,14 @@ def instances():
         out.append(Inst(id="c11.rollback.r%d" % r, props=["C11"], harness="h_c11.cpp", entry="c11_rollback", tus=TUS, defs=["VX_REDEF=%d" % r],
                         stubs=FMT_STUBS + ["_ZN4bloc7ContextD0Ev", "_ZN4bloc7ContextD2Ev"] + CONTAINER_STUBS, unwind=4, timeout=300,
                         bounds="2 declared functions; the (re)defined one is an instance parameter (first / last / new)", inputs="presence of a stale backup"))
+    for st in (2, 3):
+        out.append(Inst(id="c11.parsingend.s%d" % st, props=["C11", "C02"], harness="h_c11.cpp", entry="c11_parsing_end", tus=TUS, defs=["VX_STEPS=%d" % st],
+                        stubs=FMT_STUBS + CTX_STUBS + CONTAINER_STUBS, unwind=st + 2, unwindset=EMPTY_DECL_UNWIND, timeout=600,
+                        bounds="2 variables, %d re-typings by the abandoned text (any interleaving), scalar types" % st,
+                        inputs="initial types, per re-typing: which variable, new type"))
+    for st in ():
+        out.append(Inst(id="c11.symbols.s%d" % st, props=["C11", "C02"], harness="h_c11.cpp", entry="c11_symbols", tus=TUS, defs=["VX_STEPS=%d" % st],
+                        stubs=FMT_STUBS + CTX_STUBS + CONTAINER_STUBS, unwind=4, unwindset=EMPTY_DECL_UNWIND, timeout=600, tier="quick" if st == 2 else "thorough",
+                        bounds="2 existing variables + 1 new name, %d registerSymbol calls, scalar types" % st,
+                        inputs="initial types and safety flag, per call: which name, which type"))
     return out
